@@ -25,7 +25,7 @@ def queue_part(chk, W, tier):
     jobs = [(a, min(a + chunk, total), False) for a in range(0, total, chunk)] + [(0, 3, True)]
     def job(j):
         a, b, wit = j
-        return cbmc(VERIF + '/harness/c08_queue_main.c', args, ['QUEUE_C="%s/q.c"' % W, 'SEQ_FROM=%d' % a, 'SEQ_TO=%d' % b, 'NOPS=%d' % nops, 'SCAP=8'] + (['WITNESS'] if wit else []),
+        return cbmc(VERIF + '/harness/c08_queue_main.c', args, ['QUEUE_C="%s/q.c"' % W, 'SEQ_FROM=%d' % a, 'SEQ_TO=%d' % b, 'NOPS=%d' % nops, 'SCAP=8', 'IR_POOL'] + (['WITNESS'] if wit else []),
                     includes=[VERIF + '/models'], timeout=600 if tier == 'quick' else 3600)
     res = pmap(job, jobs)
     wit = [r for j, r in zip(jobs, res) if j[2]][0]
